@@ -217,6 +217,17 @@ func (x *Exec) ghostMods(ms *ModSet) {}
 // gives the argument values, so that `p.f` / `elems(s)` / `elems(p.f)` become
 // point updates; without env (loop scans) they widen to the whole map.
 func (x *Exec) modifiesToSet(spec *FuncSpec, ms *ModSet, argTypes map[string]types.Type, env map[string]Val, st *State) {
+	// a ghost variable that an effect clause (or an ensures of an assumed contract) defines is modified,
+	// whether or not the modifies clause lists it: otherwise the clause would constrain the OLD value
+	for _, cl := range spec.Effects {
+		for _, tok := range tokRe.FindAllString(cl.Src, -1) {
+			if g, ok := x.w.specs.Ghosts[tok]; ok {
+				if gs, err := x.specSort(g.Type); err == nil {
+					ms.heap["G$"+tok] = gs
+				}
+			}
+		}
+	}
 	if len(spec.Modifies) == 0 && !spec.Pure && !spec.Ext && !spec.Iface {
 		// bluge function under contract that does not state its frame: anything may change
 		ms.all = true
@@ -1485,6 +1496,9 @@ func (x *Exec) checkEnsures(fr *Frame, st *State, out Val) {
 	spec := fr.spec
 	if spec == nil {
 		return
+	}
+	if fr.root && x.speculating == 0 {
+		x.returnPCs = append(x.returnPCs, st.pc)
 	}
 	names := map[string]Val{}
 	for k, v := range fr.params {
